@@ -837,6 +837,16 @@ func (b *bmc) prepare(res *L2Result) {
 		}
 		bad := tb.Or(b.viol[l]...)
 		var knownConds []*Term
+		directKnown := ""
+		for _, k := range b.e.known {
+			if k.Status != "fixed" && k.Class == "" && k.Label == l && (k.Harness == b.harness || k.Harness == "*") {
+				directKnown = k.ID
+			}
+		}
+		if directKnown != "" {
+			b.knownQ = append(b.knownQ, prepQuery{kind: "known", label: l, terms: []*Term{bad}, knownID: directKnown, knownClass: "(any)"})
+			continue
+		}
 		for _, k := range b.e.known {
 			if k.Status == "fixed" || k.Harness != b.harness || k.Label != l {
 				continue
@@ -1038,16 +1048,16 @@ func edgeAccesses(ed *l2Edge) []access {
 	for _, op := range ed.Ops {
 		switch op.Kind {
 		case "load":
-			out = append(out, access{op.Loc, false, op.Atomic, "read@" + op.Pos})
+			out = append(out, access{op.Loc, false, op.Atomic, "read in " + fnOf(op.Pos)})
 		case "store":
 			if op.Pos == "publish" {
 				continue
 			}
-			out = append(out, access{op.Loc, true, op.Atomic, "write@" + op.Pos})
+			out = append(out, access{op.Loc, true, op.Atomic, "write in " + fnOf(op.Pos)})
 		case "mlookup", "mlen", "mnext":
-			out = append(out, access{op.Loc, false, strings.HasPrefix(op.Loc, "Y:"), "map read@" + op.Pos})
+			out = append(out, access{op.Loc, false, op.Atomic, "map read in " + fnOf(op.Pos)})
 		case "mupdate", "mdelete":
-			out = append(out, access{op.Loc, true, strings.HasPrefix(op.Loc, "Y:"), "map write@" + op.Pos})
+			out = append(out, access{op.Loc, true, op.Atomic, "map write in " + fnOf(op.Pos)})
 		}
 	}
 	return out
@@ -1222,4 +1232,12 @@ var labelFilter *regexp.Regexp
 
 func labelSelected(l string) bool {
 	return labelFilter == nil || labelFilter.MatchString(l)
+}
+
+// fnOf extracts the function part of an access position ("file:line in function").
+func fnOf(pos string) string {
+	if i := strings.Index(pos, " in "); i >= 0 {
+		return pos[i+4:]
+	}
+	return pos
 }
